@@ -619,3 +619,70 @@ Theorem filter_leaf_nodes_is_restrict_without_side_condition_refuted :
   end = Some (T 0 None None None [T 1 None None (Some 2048) []; T 4 (Some 2) None (Some 1024) []]).
 Proof. exact C08W11Side.filter_is_restrict_without_side_condition_refuted. Qed.
 Print Assumptions filter_leaf_nodes_is_restrict_without_side_condition_refuted.
+
+(* ---- wave 12: prune_leaves_without_taxa(recursive=False), specification, pointer level and generated: one pass;
+   an internal node emptied by the pass stays as a taxon-less leaf (third predicate np_true).  Closes the leftover
+   named after wave 11 (only the transcription-level simulation existed for recursive=False). ---- *)
+From DV Require Proofs.C08W12NonRec.
+
+Theorem prune_leaves_without_taxa_nonrecursive_is_restrictG :
+  forall (upd_bip sup : bool) (t : tree) (rooted : option bool), NoDup (ids t) ->
+  C08Model.prune_leaves_without_taxa false upd_bip sup (t, rooted) =
+  match C08Model.restrictG sup C08Model.has_taxon C08Model.np_true C08Model.np_true t with
+  | Some r => C08Model.IOk (map t_id (filter (C08Model.app_np C08Model.no_taxon) (leaves t)),
+                   fst (C08Prune.with_update upd_bip sup rooted r), snd (C08Prune.with_update upd_bip sup rooted r))
+  | None => C08Model.IErr C08Model.EAttr t
+  end.
+Proof. exact C08W12NonRec.S.plwt_nonrecursive_spec. Qed.
+Print Assumptions prune_leaves_without_taxa_nonrecursive_is_restrictG.
+
+Theorem heap_prune_leaves_without_taxa_nonrecursive_is_restrictG :
+  forall (ub su : bool) (h : heap) (t : tree),
+  WF h -> abs h = Some t ->
+  match C08Model.restrictG su C08Model.has_taxon C08Model.np_true C08Model.np_true t with
+  | Some r => exists h', HeapOps.prune_leaves_without_taxa false ub su h = HOk h' /\ WF h' /\
+                         abs h' = Some (fst (C08Prune.with_update ub su (rooted h) r))
+  | None => exists h', HeapOps.prune_leaves_without_taxa false ub su h = HErr AttrErr h' /\ WF h'
+  end.
+Proof. exact C08W12NonRec.heap_plwt_nonrec_restrictG. Qed.
+Print Assumptions heap_prune_leaves_without_taxa_nonrecursive_is_restrictG.
+
+Theorem generated_prune_leaves_without_taxa_nonrecursive_is_restrictG :
+  forall (fuel : nat) (ub su : bool) (h : heap) (t r : tree),
+  (Heap.fuel_of h <= fuel)%nat ->
+  WF h -> abs h = Some t ->
+  C08Model.restrictG su C08Model.has_taxon C08Model.np_true C08Model.np_true t = Some r ->
+  exists h', to_hres (Tree_prune_leaves_without_taxa HG fuel false ub su h) = HOk h' /\ WF h' /\
+             abs h' = Some (fst (C08Prune.with_update ub su (rooted h) r)).
+Proof. exact C08W12NonRec.gen_plwt_nonrec_restrictG. Qed.
+Print Assumptions generated_prune_leaves_without_taxa_nonrecursive_is_restrictG.
+
+(* nothing would be left of the seed: the generated method refuses and the heap stays well formed *)
+Theorem generated_prune_leaves_without_taxa_nonrecursive_refuses :
+  forall (fuel : nat) (ub su : bool) (h : heap) (t : tree),
+  (Heap.fuel_of h <= fuel)%nat ->
+  WF h -> abs h = Some t ->
+  C08Model.restrictG su C08Model.has_taxon C08Model.np_true C08Model.np_true t = None ->
+  exists h', to_hres (Tree_prune_leaves_without_taxa HG fuel false ub su h) = HErr OtherErr h' /\ WF h'.
+Proof. exact C08W12NonRec.gen_plwt_nonrec_refuses. Qed.
+Print Assumptions generated_prune_leaves_without_taxa_nonrecursive_refuses.
+
+(* ((_,_)X,C)R rooted, neither child of X carries a taxon: one pass removes both and the emptied X stays,
+   where `restrict` (and recursive=True) removes X as well *)
+Theorem generated_prune_leaves_without_taxa_nonrecursive_nonvacuous :
+  (Heap.fuel_of C08W12NonRec.w12_heap <= 10)%nat /\
+  WF C08W12NonRec.w12_heap /\ abs C08W12NonRec.w12_heap = Some C08W12NonRec.w12_tree /\
+  C08Model.restrictG false C08Model.has_taxon C08Model.np_true C08Model.np_true C08W12NonRec.w12_tree =
+    Some (T 0 None None None [T 1 None None (Some 2048) []; T 4 (Some 2) None (Some 1024) []]) /\
+  C08Model.restrict false C08Model.has_taxon C08W12NonRec.w12_tree =
+    Some (T 0 None None None [T 4 (Some 2) None (Some 1024) []]).
+Proof. exact C08W12NonRec.gen_plwt_nonrec_hyps. Qed.
+Print Assumptions generated_prune_leaves_without_taxa_nonrecursive_nonvacuous.
+
+Theorem generated_prune_leaves_without_taxa_nonrecursive_run :
+  match to_hres (Tree_prune_leaves_without_taxa HG 10 false false false C08W12NonRec.w12_heap) with
+  | HOk h' => abs h'
+  | _ => None
+  end = Some (T 0 None None None [T 1 None None (Some 2048) []; T 4 (Some 2) None (Some 1024) []]).
+Proof. exact C08W12NonRec.gen_plwt_nonrec_run. Qed.
+Print Assumptions generated_prune_leaves_without_taxa_nonrecursive_run.
